@@ -54,7 +54,9 @@ func GetUsedImports(imports map[string]*Import) map[string]*Import {
 
 type MetaData struct {
 	Imports map[string]*Import
-	Package Package
+	// Declared holds the package-level identifiers of the user's own files
+	Declared map[string]struct{}
+	Package  Package
 }
 
 // ProviderType represents the type of provider.
